@@ -17,14 +17,14 @@ _NONE_FIELD = "none"
 def is_primitive(item):
     """
     Determines if the given item is a primitive value (either an int, float,
-    str, bool, or None).
+    str, bool, bytes, complex, None, or Ellipsis).
 
     Args:
         item (any): Any value
     Returns:
         bool: Whether the item is a primitive value.
     """
-    return isinstance(item, (int, float, str, bool)) or item is None
+    return isinstance(item, (int, float, str, bool, bytes, complex)) or item is None or item is Ellipsis
 
 
 def _name_regex(name_id):
